@@ -2,7 +2,10 @@
 use crate::SendMode;
 use crate::frame;
 
+#[cfg(not(uflow_verif))]
 use std::time;
+#[cfg(uflow_verif)]
+use crate::verif::vtime as time;
 
 mod emit;
 mod frame_ack_queue;
@@ -19,6 +22,22 @@ mod send_rate;
 
 #[cfg(test)]
 mod packet_tests;
+
+#[cfg(uflow_verif)]
+pub mod verif_exports {
+    pub use super::emit::{AckFrameEmitter, DataFrameEmitter, DataPushError};
+    pub use super::frame_ack_queue::FrameAckQueue;
+    pub use super::frame_queue::FrameQueue;
+    pub use super::loss_rate::LossIntervalQueue;
+    pub use super::packet_receiver::PacketReceiver;
+    pub use super::packet_receiver::datagram_is_valid;
+    pub use super::packet_receiver::verif_exports::*;
+    pub use super::packet_sender::PacketSender;
+    pub use super::pending_packet::{FragmentRef, PendingPacket, PendingPacketRc};
+    pub use super::recv_rate_set::RecvRateSet;
+    pub use super::reorder_buffer::ReorderBuffer;
+    pub use super::send_rate::{FeedbackData, SendRateComp};
+}
 
 const INITIAL_RTT_ESTIMATE_MS: u64 = 150;
 const INITIAL_RTO_ESTIMATE_MS: u64 = 4*INITIAL_RTT_ESTIMATE_MS;
